@@ -81,6 +81,11 @@ impl Default for MemTable {
 	}
 }
 
+#[cfg(feature = "verif-hooks")]
+pub(crate) fn verif_node_sizes() -> (usize, usize, usize) {
+	skiplist::verif_node_sizes()
+}
+
 impl MemTable {
 	pub(crate) fn new(arena_capacity: usize) -> Self {
 		let arena = Arc::new(Arena::new(arena_capacity));
